@@ -102,7 +102,7 @@ pub fn run_chaos(s: &Streams) -> CaseOut {
         &tc,
         &built.sigs,
         &spec,
-        &RunOpts { max_next: 300, want_vars: true, seed: Some(seed), extra_after_end: 1 },
+        &RunOpts { max_next: 300, want_vars: true, seed: Some(seed), extra_after_end: 1, ..Default::default() },
     );
     if let Some(RealItem::Panic(p)) = &real.ctor {
         out.fail(p.key(), format!("constructing the iterator panicked: {p}"));
